@@ -36,7 +36,7 @@ ANCHOR_FILES = ("_core", "_namespace", "_typehints", "_util", "_common")
 NO_SHRINK = ("parser/opts", "parser/opts/*", "world", "world/*")
 SHRINK_DICTS = ("ops/*/obj", "ops/*/env", "ops/*/base", "ops/*/ns")
 
-FEATS = ["l", "ll", "d", "dl", "t", "st", "tl", "x", "n", "p", "inner", "dd", "dg", "obj", "objs", "dobjs", "odobjs", "holder", "model", "pr", "sd", "dcf"]
+FEATS = ["l", "ll", "d", "dl", "t", "st", "tl", "x", "n", "p", "inner", "dd", "dg", "obj", "objs", "dobjs", "odobjs", "holder", "model", "pr", "sd", "dcf", "ostr"]
 
 
 def parser_spec(feats, eoe):
@@ -61,6 +61,8 @@ def parser_spec(feats, eoe):
         arg("tl", "list_tuple_ff", [{"__tuple__": [1, 2]}])
     if "x" in feats:
         arg("x", "any", None)
+    if "ostr" in feats:
+        arg("ostr", "optstr", "declared")
     if "n" in feats:
         arg("n", "float", [1], nargs="+")
     if "p" in feats:
@@ -217,7 +219,7 @@ def generate(rng, tier):
         "A/B/qb.txt": "x",
         "A/bad.yaml": json.dumps(dict({"a": 2}, **({"inner": "B/innerbad.yaml"} if "inner" in feats else {"a": "bad"}))),
         "A/B/innerbad.yaml": "q: missing.txt\n",
-        "dflt.yaml": "" if rng.random() < 0.25 else json.dumps(dict({"a": 3}, **({"l": [5, 6]} if "l" in feats else {}), **({"dl": {"m": [2]}} if "dl" in feats else {}), **({"obj": {"class_path": "dsim.simtypes.Base", "init_args": {"tags": [3]}}} if "obj" in feats else {}))),
+        "dflt.yaml": "" if rng.random() < 0.25 else json.dumps(dict({"a": 3}, **({"l": [5, 6]} if "l" in feats else {}), **({"dl": {"m": [2]}} if "dl" in feats else {}), **({"obj": {"class_path": "dsim.simtypes.Base", "init_args": {"tags": [3]}}} if "obj" in feats else {}), **({"ostr": rng.choice([None, "fromfile"])} if "ostr" in feats else {}))),
     }
     w = {"dirs": ["home", "run", "A/B", "out"], "files": files, "cwd": ".", "env": {}}
     sweep = {"op": rng.randrange(nops), "max_sites": 40 if tier == "quick" else 80, "cb_cls": rng.choice(["ValueError", "TypeError", "RuntimeError", "KeyError", "OSError", "SimAbort"]), "errno": rng.choice(["EACCES", "ENOENT", "EIO", "EMFILE"]), "adversary": rng.choice(["delete", "chmod0", "mkdir", "truncate"])}
